@@ -165,9 +165,13 @@ class Ctx:
                 pass
         exe = BUILD / f"{name}-{h.hexdigest()[:16]}"
         if not exe.exists():
-            for old in BUILD.glob(f"{name}-*"):
-                if old.is_file():
+            olds = sorted((o for o in BUILD.glob(f"{name}-*") if o.is_file() and ".tmp" not in o.name),
+                          key=lambda o: o.stat().st_mtime)
+            for old in olds[:-3]:
+                try:
                     old.unlink()
+                except OSError:
+                    pass
             tmp = str(exe) + ".tmp%d" % os.getpid()
             if len(srcs) > 3:      # compile translation units in parallel
                 objs, procs = [], []
@@ -208,8 +212,10 @@ class Ctx:
         want = [d / t for t in targets]
         if stamp.exists() and all(w.exists() for w in want):
             return d
-        for old in BUILD.glob(f"gama-{tag}-*"):
-            if old != d:
+        # keep the few most recent trees (several checks / scratch worktrees may build concurrently)
+        olds = sorted((o for o in BUILD.glob(f"gama-{tag}-*") if o != d), key=lambda o: o.stat().st_mtime)
+        for old in olds[:-3]:
+            if time.time() - old.stat().st_mtime > 1800:
                 shutil.rmtree(old, ignore_errors=True)
         d.mkdir(parents=True, exist_ok=True)
         cxx = f"-D{GUARD} -g -O1" + (" -fsanitize=address,undefined -fno-sanitize-recover=all -fno-omit-frame-pointer" if sanitize else "")
